@@ -164,28 +164,28 @@ Print Assumptions C17_raising_importer_refuted.
 (* ---- authorized_keys options ------------------------------------------------------------------------ *)
 
 (* Round trip with the quoting OpenSSH documents (value in double quotes, embedded double quote written
-   backslash-quote, nothing else escaped): any non-empty list of options, any value texts - backslashes
-   included - in which no backslash stands directly in front of a double quote. (Repaired by 2e10b73.)
-   _partial: the statement for ALL values is false, see the next theorem. *)
-Theorem C17_openssh_quoting_partial : forall opts rest,
-  opts <> [] -> Forall (fun nv => Forall plain (fst nv)) opts -> Forall (fun nv => safe (snd nv) = true) opts ->
+   backslash-quote, nothing else escaped): any non-empty list of options and EVERY value text this
+   quoting can represent, i.e. every value that does not end in a backslash - backslashes anywhere
+   else, also directly in front of a double quote, come back unchanged. (Repaired by 2e10b73 + fd4aee3.) *)
+Theorem C17_openssh_quoting : forall opts rest,
+  opts <> [] -> Forall (fun nv => Forall plain (fst nv)) opts ->
+  Forall (fun nv => representable (snd nv) = true) opts ->
   tokenize (print_opts ossh_escape opts ++ 32 :: rest) = Some (map raw_opt opts, strip (32 :: rest)).
 Proof. exact tokenize_ossh. Qed.
-Print Assumptions C17_openssh_quoting_partial.
+Print Assumptions C17_openssh_quoting.
 
-(* Remaining deviation of the current code: the value  a backslash quote b , which OpenSSH reads back
-   from its quoted form, is not tokenized back (the tokenizer pairs the value's backslash with the
-   escaping backslash of the quote). *)
-Theorem C17_openssh_quoting_refuted :
-  exists n v rest, Forall plain n /\
-    tokenize (print_opts ossh_escape [(n, v)] ++ 32 :: rest) <> Some ([raw_opt (n, v)], strip (32 :: rest)).
-Proof. exact tokenize_ossh_backslash_quote_lost. Qed.
-Print Assumptions C17_openssh_quoting_refuted.
+(* Between 2e10b73 and fd4aee3 (tokenize_mid) the round trip failed for the representable value
+   a backslash quote b: the value's backslash was paired with the escaping backslash of the quote.
+   True of that old definition only. *)
+Theorem C17_openssh_quoting_mid_refuted :
+  exists n v rest, Forall plain n /\ representable v = true /\
+    tokenize_mid (print_opts ossh_escape [(n, v)] ++ 32 :: rest) <> Some ([raw_opt (n, v)], strip (32 :: rest)).
+Proof. exact tokenize_mid_backslash_quote_lost. Qed.
+Print Assumptions C17_openssh_quoting_mid_refuted.
 
-(* Before 2e10b73 (tokenize_old) the round trip already failed for a value that is safe in the sense
-   above: every backslash was dropped. *)
+(* Before 2e10b73 (tokenize_old) every backslash was dropped. True of that old definition only. *)
 Theorem C17_openssh_quoting_old_refuted :
-  exists n v rest, Forall plain n /\ safe v = true /\
+  exists n v rest, Forall plain n /\ representable v = true /\
     tokenize_old (print_opts ossh_escape [(n, v)] ++ 32 :: rest) <> Some ([raw_opt (n, v)], strip (32 :: rest)).
 Proof. exact tokenize_old_backslash_lost. Qed.
 Print Assumptions C17_openssh_quoting_old_refuted.
@@ -326,21 +326,13 @@ Example C17_ex_empty_component :
   kh_lookup_lines wit_ext [[97; 44; 32; 75]] [104] [] 0 = Some {| r_host := []; r_ca := []; r_revoked := [] |}.
 Proof. exact empty_component_now_inert. Qed.
 
-(* command with backslashes that are not in front of a quote: safe, so covered by the round trip *)
-Example C17_ex_safe : safe [112;114;105;110;116;102;32;34;37;115;92;110;34;32;111;107] = true.
-Proof. reflexivity. Qed.
+(* values with backslashes, also directly in front of a quote, are representable; the round trip on one *)
+Example C17_ex_representable :
+  representable [101;99;104;111;32;92;34;104;105;92;34;32;120] = true /\
+  tokenize (print_opts ossh_escape [([99], [101;99;104;111;32;92;34;104;105;92;34;32;120])] ++ [32; 107])
+  = Some ([[99;61;101;99;104;111;32;92;34;104;105;92;34;32;120]], [107]).
+Proof. vm_compute. auto. Qed.
 
-(* from="a*",from="!ab" k : both lists are kept and both are required *)
-Example C17_ex_options :
-  match parse_options true [102;114;111;109;61;34;97;42;34;44;102;114;111;109;61;34;42;44;33;97;98;34;32;107] with
-  | Some (m, rest) =>
-      zlist_eqb rest [107] &&
-      match opt_get m n_from with
-      | Some (VFrom [a; b]) => zlist_eqb a [97;42] && zlist_eqb b [42;44;33;97;98]
-      | _ => false
-      end &&
-      option_eqb Bool.eqb (match_options wit_ext m [97;99] [49;46;50;46;51;46;52] None) (Some true) &&
-      option_eqb Bool.eqb (match_options wit_ext m [97;98] [49;46;50;46;51;46;52] None) (Some false)
-  | None => false
-  end = true.
-Proof. vm_compute. reflexivity. Qed.
+(* a value ending in a backslash is outside the format: its quoted form is refused, as by OpenSSH *)
+Example C17_ex_trailing_backslash : tokenize (print_opts ossh_escape [([120], [97; 92])] ++ [32; 107]) = None.
+Proof. exact tokenize_ossh_trailing_backslash_refused. Qed.
